@@ -4,6 +4,7 @@ import (
 	"fmt"
 	"path/filepath"
 	"sort"
+	"time"
 
 	"github.com/LemoFoundationLtd/lemochain-core/chain/types"
 
@@ -21,6 +22,7 @@ type txAdapter struct {
 	wd     *txWorld
 	n      *nut
 	seq    int
+	wedged bool // a step of the current behaviour ended in a panic (an expired wait is recorded that way)
 }
 
 func (a *txAdapter) world(u *universe) *txWorld {
@@ -51,15 +53,16 @@ func (a *txAdapter) Reset(init map[string]tla.Value) (engine.Fields, error) {
 }
 
 func (a *txAdapter) reset(u *universe) engine.Fields {
-	if a.n != nil {
-		a.n.stop()
+	if old := a.n; old != nil {
 		a.n = nil
+		old.retire(a.wedged)
 	}
+	a.wedged = false
 	a.wd = a.world(u)
 	a.seq++
 	tip := a.wd.main[len(a.wd.main)-1]
 	a.n = startNut(a.wd.w, filepath.Join(a.dir, fmt.Sprintf("nut%d", a.seq)), tip.Height(), tip.Hash())
-	fl := engine.Fields{}
+	fl := engine.Fields{"peer_dropped": false}
 	u.fields(fl)
 	a.project(fl)
 	return fl
@@ -133,6 +136,12 @@ func (a *txAdapter) Apply(s engine.Step) (engine.Fields, error) {
 
 // do performs one step on the real manager and logs the state at the quiescence point after it.
 func (a *txAdapter) do(act string, h int, batch []string) engine.Fields {
+	defer func() {
+		if r := recover(); r != nil {
+			a.wedged = true
+			panic(r)
+		}
+	}()
 	n, wd := a.n, a.wd
 	fl := engine.Fields{}
 	block := func() *types.Block {
@@ -174,33 +183,36 @@ func (a *txAdapter) do(act string, h int, batch []string) engine.Fields {
 		func() {
 			defer n.cw.release()
 			from := n.r.mark()
-			n.peer.push(blocksMsg(b))
-			n.peer.push(blocksMsg(wd.main[0])) // marker, see deliverBlock
-			loopDone := func(evs []ev) bool {
-				return count(evs, from, func(e ev) bool { return e.kind == "StableBlock" && e.caller == fromRcvLoop }) >= 2
-			}
+			loopDone := n.pushBlocks([]*types.Block{b}, wd.main[0])
 			held := false
-			n.r.wait(fmt.Sprintf("main block %d to enter InsertBlock", h), func(evs []ev) bool {
+			n.waitPeer(fmt.Sprintf("main block %d to enter InsertBlock", h), func(evs []ev) bool {
 				held = count(evs, from, func(e ev) bool { return e.kind == "InsertBlock.begin" && e.hash == b.Hash() }) >= 1
 				return held || loopDone(evs)
 			})
 			fl["held"] = held
 			n.deliverBatch(wd.batch(batch), "the batch (block held)")
 			n.cw.release()
-			n.r.wait("the receive loop to finish the held block and the marker behind it", loopDone)
+			// (if the session was closed meanwhile the marker is gone with it; the held block is with the loop already)
+			if !n.takeDroppedPeek() {
+				n.waitPeer("the receive loop to finish the held block and the marker behind it", loopDone)
+			}
 		}()
 	default:
 		engine.Failf("synctx: unknown step %s", act)
 	}
 	n.fence()
 	a.snapshot(fl, act)
+	// the manager closed the session of the peer during this step (a fresh session was opened for the steps that follow)
+	fl["peer_dropped"] = n.takeDropped()
 	return fl
 }
 
 // snapshot logs the node state at a quiescence point (see adapter.snapshot).
 func (a *txAdapter) snapshot(fl engine.Fields, what string) {
 	n := a.n
-	for tries := 0; ; tries++ {
+	limit := limitNow()
+	deadline := time.Now().Add(limit)
+	for {
 		n.waitSettled(what)
 		n.waitTxHandlers(what)
 		m0 := n.r.mark()
@@ -215,8 +227,8 @@ func (a *txAdapter) snapshot(fl engine.Fields, what string) {
 			}
 			return
 		}
-		if tries > 100000 {
-			engine.Failf("sync harness: no quiet moment to read the node state after %s", what)
+		if time.Now().After(deadline) {
+			expired("the node did not come to rest within %v after %s (the manager keeps calling into the chain / pool / peer)", limit, what)
 		}
 	}
 }
